@@ -468,7 +468,7 @@ func semCase(t *rapid.T, root string, prog *mrogen.Program) {
 		caseSeq++
 		dir := filepath.Join(root, fmt.Sprintf("sem%d-%d", os.Getpid(), caseSeq))
 		defer os.RemoveAll(dir)
-		src := prog.Source(nil)
+		src := prog.Source(runLayout(t))
 		nullChoices := []int{0, 0, 5}
 		if strictMode {
 			nullChoices = []int{0, 5, 20}
@@ -661,4 +661,14 @@ func TestC07Accept(t *testing.T) {
 		}
 		semCase(t, root, prog)
 	})
+}
+
+// runLayout: the order in which the calls of a pipeline are written has no
+// meaning; one program in three is written in a drawn order (one in nine
+// back to front), so that nothing mrp does can lean on "as generated".
+func runLayout(t *rapid.T) *mrogen.Layout {
+	if rapid.IntRange(0, 2).Draw(t, "shuffleCalls") != 0 {
+		return nil
+	}
+	return &mrogen.Layout{ShuffleCalls: true, CallOrder: func(n int) int { return rapid.IntRange(0, n-1).Draw(t, "callOrder") }}
 }
